@@ -887,8 +887,15 @@ class Process:
             else:
                 self._raise_if_pid_reused()
                 if not cpus:
-                    if hasattr(self._proc, "_get_eligible_cpus"):
-                        cpus = self._proc._get_eligible_cpus()
+                    if LINUX:
+                        # Ask for every CPU a cpu_set_t can hold: the
+                        # kernel keeps the ones the process is allowed
+                        # to run on (online, in its cpuset). We can't
+                        # use _get_eligible_cpus() here: it reads
+                        # "Cpus_allowed_list" from /proc/{pid}/status,
+                        # which is the *current* affinity mask, so
+                        # after cpu_affinity([0, 1]) it'd be [0, 1].
+                        cpus = range(1024)
                     else:
                         cpus = tuple(range(len(cpu_times(percpu=True))))
                 self._proc.cpu_affinity_set(list(set(cpus)))
